@@ -18,6 +18,8 @@ def env():
     if _ENV is None:
         _ENV = gp.Env(empty=True)
         _ENV.setParam("OutputFlag", 0)
+        _ENV.setParam("Threads", 1)  # deterministic, and the machine is shared
+        _ENV.setParam("Seed", 0)
         _ENV.start()
     return _ENV
 
